@@ -75,12 +75,20 @@ void *mremap_wrapper(void *old_address __attribute__((__unused__)),
 
 /* Sleep delay in ms */
 #define RCU_SLEEP_DELAY_MS	10
+#if defined(URCU_VERIF) && defined(URCU_VERIF_INIT_READER_COUNT)
+# define INIT_READER_COUNT URCU_VERIF_INIT_READER_COUNT
+#else
 #define INIT_READER_COUNT	8
+#endif
 
 /*
  * Active attempts to check for reader Q.S. before calling sleep().
  */
+#if defined(URCU_VERIF) && defined(URCU_VERIF_RCU_QS_ACTIVE_ATTEMPTS)
+# define RCU_QS_ACTIVE_ATTEMPTS URCU_VERIF_RCU_QS_ACTIVE_ATTEMPTS
+#else
 #define RCU_QS_ACTIVE_ATTEMPTS 100
+#endif
 
 static
 int urcu_bp_refcount;
